@@ -49,6 +49,12 @@ def check(ctx: Ctx) -> None:
     handles_fresh(ctx)
     appended_files_must_exist(ctx)
     strict_validation_rejects(ctx)
+    from .c04 import r1 as c04_r1
+    ctx.shared(c04_r1, "C04.R1", "C11.R10", "a conflicting pointer write stays a conflict (it is not re-issued against a newer ETag)")
+    # "no accepted append can make later scans fail": the range reader is sized by the object's real length, not by the size an
+    # appended DataFile declares
+    from .c20 import r2 as c20_r2
+    ctx.shared(c20_r2, "C20.R2", "C11.R11", "scans do not depend on the size an append declared")
 
 
 def missing_file_raises(ctx: Ctx, f: FunctionInfo, rid: str, what: str) -> int:
